@@ -19,7 +19,8 @@ package head
 //@ pred contains(h *Header, h2 *Header) bool = h.UUID == h2.UUID && sameDigest(h, h2) && allStamps(h, h2) && allLinks(h, h2) && allTags(h, h2) && allMeta(h, h2) && sameNotes(h, h2)
 //
 //@ func (h *Header) Contains(h2) (r)
-//@   requires wfHeader(h) && wfHeader(h2)
+//@   requires wfHeader(h)
+//@   requires wfHeader(h2)
 //@   ensures [uuid] r ==> h.UUID == h2.UUID
 //@   ensures [digest] r ==> sameDigest(h, h2)
 //@   ensures [stamps] r ==> allStamps(h, h2)
@@ -39,3 +40,5 @@ package head
 //@   loop 6 invariant forall j int :: 0 <= j && j < idx ==> h.Tags[j] != h2.Tags[idx5]
 //@   loop 7 invariant h.UUID == h2.UUID && sameDigest(h, h2) && allStamps(h, h2) && allLinks(h, h2) && allTags(h, h2)
 //@   loop 7 invariant forall k cbc.Key :: $visited[k] ==> has(h.Meta, k) && h.Meta[k] == h2.Meta[k]
+//
+//@ pred sameFields(a *Header, b *Header) bool = a.UUID == b.UUID && a.Digest == b.Digest && a.Stamps == b.Stamps && a.Links == b.Links && a.Tags == b.Tags && a.Meta == b.Meta && a.Notes == b.Notes
